@@ -125,7 +125,7 @@ class Runner:
             return fn(self.libmp, [py_raw(a) for a in c["args"]], c["p"], c["r"], c["kw"])
         saved = mp.prec
         try:
-            if lvl == "oper":                 # operators read the context precision; rounding is 'n'
+            if lvl in ("oper", "ofun"):       # operators / plain functions read the context precision; rounding is 'n'
                 mp.prec = c["p"] if c["p"] else saved
             return fn(mp, [py_ctx(a, mp) for a in c["args"]], c["p"], c["r"], c["kw"])
         finally:
@@ -184,6 +184,63 @@ ROUTES = {
     ("pos", C): lambda mp, a, p, r, kw: mp.mpf(a[0], prec=p, rounding=r),
 }
 
+
+def _seti(mp, p):
+    return None
+
+ROUTES.update({
+    ("floor", L): lambda lm, a, p, r, kw: lm.mpf_floor(a[0], p, r),
+    ("ceil", L): lambda lm, a, p, r, kw: lm.mpf_ceil(a[0], p, r),
+    ("nint", L): lambda lm, a, p, r, kw: lm.mpf_nint(a[0], p, r),
+    ("frac", L): lambda lm, a, p, r, kw: lm.mpf_frac(a[0], p, r),
+    ("floor", O): lambda mp, a, p, r, kw: mp.floor(a[0]),
+    ("ceil", O): lambda mp, a, p, r, kw: mp.ceil(a[0]),
+    ("nint", O): lambda mp, a, p, r, kw: mp.nint(a[0]),
+    ("frac", O): lambda mp, a, p, r, kw: mp.frac(a[0]),
+    ("floor", F): lambda mp, a, p, r, kw: mp.floor(a[0], prec=p, rounding=r),
+    ("ceil", F): lambda mp, a, p, r, kw: mp.ceil(a[0], prec=p, rounding=r),
+    ("nint", F): lambda mp, a, p, r, kw: mp.nint(a[0], prec=p, rounding=r),
+    ("frac", F): lambda mp, a, p, r, kw: mp.frac(a[0], prec=p, rounding=r),
+    ("to_int", L): lambda lm, a, p, r, kw: lm.to_int(a[0]),
+    ("to_int", O): lambda mp, a, p, r, kw: int(a[0]),
+    ("mod", L): lambda lm, a, p, r, kw: lm.mpf_mod(a[0], a[1], p, r),
+    ("mod", O): lambda mp, a, p, r, kw: a[0] % a[1],
+    ("mod", "ofun"): lambda mp, a, p, r, kw: mp.fmod(a[0], a[1]),
+    ("pow_int", L): lambda lm, a, p, r, kw: lm.mpf_pow_int(a[0], a[1], p, r),
+    ("pow_int", O): lambda mp, a, p, r, kw: a[0] ** a[1],
+    ("pow_int", "ofun"): lambda mp, a, p, r, kw: mp.power(a[0], a[1]),
+    ("to_float", L): lambda lm, a, p, r, kw: lm.to_float(a[0], rnd="n"),
+    ("to_float", O): lambda mp, a, p, r, kw: float(a[0]),
+    ("hash_eq", O): lambda mp, a, p, r, kw: (a[0] == a[1], hash(a[0]), hash(a[1])),
+    ("mag", O): lambda mp, a, p, r, kw: mp.mag(a[0]),
+    ("frexp", O): lambda mp, a, p, r, kw: mp.frexp(a[0]),
+    ("ldexp", O): lambda mp, a, p, r, kw: mp.ldexp(a[0], a[1]),
+    ("isint", O): lambda mp, a, p, r, kw: mp.isint(a[0]),
+    ("nint_distance", O): lambda mp, a, p, r, kw: mp.nint_distance(a[0]),
+})
+for _rel, _fn, _pyop in [("lt", "mpf_lt", lambda x, y: x < y), ("le", "mpf_le", lambda x, y: x <= y),
+                         ("gt", "mpf_gt", lambda x, y: x > y), ("ge", "mpf_ge", lambda x, y: x >= y),
+                         ("eq", "mpf_eq", lambda x, y: x == y), ("ne", None, lambda x, y: x != y)]:
+    if _fn:
+        ROUTES[(_rel, L)] = (lambda fn: lambda lm, a, p, r, kw: getattr(lm, fn)(a[0], a[1]))(_fn)
+    ROUTES[(_rel, O)] = (lambda f: lambda mp, a, p, r, kw: f(a[0], a[1]))(_pyop)
+
+
+def _sym_or_int(v):
+    """mag / nint_distance exponents: an int, or the context's -inf/+inf/nan"""
+    if isinstance(v, int):
+        return enc.i(v)
+    t = v._mpf_
+    from .gen import FINF, FNINF, FNAN
+    return enc.sym({FINF: "pinf", FNINF: "ninf", FNAN: "nan"}[t])
+
+
+OUTENC = {
+    "mag": lambda v: _sym_or_int(v),
+    "frexp": lambda v: enc.t([enc_out(v[0]), enc.i(v[1])]),
+    "nint_distance": lambda v: enc.t([enc.z(v[0]), _sym_or_int(v[1])]),
+}
+
 # semantic op reported to the spec for each case op (entry-level variants collapse)
 SEM = {"mulint": "mul", "rdivint": "div"}
 
@@ -194,4 +251,12 @@ def to_event(id_, c, outcome, pb=None):
     p = 0 if (c["kw"].get("exact") or c["kw"].get("inf")) else c["p"]
     if pb is None:
         pb = p
-    return enc.event(id_, op, args, p, c["r"], enc_out(outcome), pb=pb)
+    if op in OUTENC and not isinstance(outcome, BaseException):
+        o = OUTENC[op](outcome)
+    else:
+        o = enc_out(outcome)
+    extra = [enc_arg(a) for a in c.get("wit", [])]
+    if op == "hash_eq" and not isinstance(outcome, BaseException):
+        extra = [enc.b(outcome[0]), enc.z(outcome[1]), enc.z(outcome[2])]
+        o = enc.sym("none")
+    return enc.event(id_, op, args + extra, p, c["r"], o, pb=pb)
